@@ -48,16 +48,31 @@ def cases(tier, rng):
         n = rng.choice([1, 2, 3])
         g = ref.Gen(rng, n=n, use_sub=True, bracket=True, gates=("X", "H", "Rx", "CX"), max_depth=2)
         p = g.program()
+        brackets = False
+        if i % 5 == 0:
+            # a subcircuit block whose body itself begins with prepare_all or ends with measure_all: still bracketed by
+            # one more of each (so `subcircuit { B; measure_all }` is as ill-bracketed as the explicit spelling)
+            for k, st in enumerate(p["body"]):
+                if st[0] == "sub":
+                    body = list(st[2])
+                    if rng.random() < 0.5:
+                        body.insert(0, ("gate", "prepare_all", []))
+                    else:
+                        body.append(("gate", "measure_all", []))
+                    p["body"][k] = ("sub", st[1], body)
+                    brackets = True
+                    break
         text = ref.to_text(p)
         try:
             ref.static_valid(p)
             tree = ref.sem(p)
             if not emu.gates_valid(tree) or not ref.par_disjoint(tree, n):
                 continue
-            emu.ref_subcircuits(tree)
+            if not brackets:
+                emu.ref_subcircuits(tree)
         except (ref.RefError, emu.Rejected):
             continue
-        yield text, {"prog": p, "text": text}, "subcircuit" in text
+        yield text, {"prog": p, "text": text, "brackets": brackets}, "subcircuit" in text
 
 
 def subs_left(block):
@@ -122,10 +137,18 @@ def check(pl):
     # the two spellings behave identically
     text2 = ref.to_text(explicit(p))
     c2 = parse_native(text2)
-    numpy.random.seed(5)
-    r1 = run_jaqal_circuit(c)
-    numpy.random.seed(5)
-    r2 = run_jaqal_circuit(c2)
+    def run(circ):
+        numpy.random.seed(5)
+        try:
+            return run_jaqal_circuit(circ)
+        except JaqalError as ex:
+            return None
+    r1, r2 = run(c), run(c2)
+    if (r1 is None) != (r2 is None):
+        return (f"`subcircuit {{B}}` is {'rejected' if r1 is None else 'accepted'} but `prepare_all; B; measure_all` is "
+                f"{'rejected' if r2 is None else 'accepted'}")
+    if r1 is None:
+        return None
     if result_view(r1) != result_view(r2):
         return "emulation of `subcircuit {B}` differs from `prepare_all; B; measure_all`"
     n = len(r1.readouts)
